@@ -255,6 +255,8 @@ def neigh_part(ck, tier, exe, B, plan):
     # ---- TLC: model checking and emission of the cases
     ch = Chunks(w, "n")
     cats = {}
+    modes = {}
+    sizes = {}
     nside = [0] * len(metric_names)
     seen_ids = set()
     nontrivial = set()
@@ -270,6 +272,10 @@ def neigh_part(ck, tier, exe, B, plan):
             nside[m - 1] += 1
         for k in c["cat"]:
             cats[k] = cats.get(k, 0) + 1
+        mk = "xvalid=%d,kfold=%d" % (c["xvalid"], c["kfold"])
+        modes[mk] = modes.get(mk, 0) + 1
+        nk = "n=%d" % len(c["c"])
+        sizes[nk] = sizes.get(nk, 0) + 1
         ch.write(c)
 
     states = trans = 0
@@ -299,7 +305,11 @@ def neigh_part(ck, tier, exe, B, plan):
     for k in wanted:
         if not cats.get(k):
             raise Broken("vacuous case set: no case of category %s" % k)
+    if len(modes) < 4 or min(modes.values()) < 0.1 * ncases:
+        raise Broken("cross-validation modes are not balanced in the emitted cases: %s" % modes)
     ck.cov["case_categories"] = cats
+    ck.cov["cases_per_cross_validation_mode"] = modes
+    ck.cov["cases_per_number_of_candidates"] = sizes
     ck.cov["cases_where_a_live_second_nmini_test_would_differ"] = cats.get("secondTestDead", 0)
 
     # ---- the real library
